@@ -143,9 +143,9 @@ class EngineBase:
                         r = r2
                         backend = f'z3(relevance-{depth})'
                         break
-            if r == z3.unknown and not short:
+            if r == z3.unknown and not short and not getattr(self, 'no_long_retry', False):
                 # one retry with a longer budget and another seed: verdicts must not flip when the machine is busy
-                s = self._solver(self.timeout_ms * 4)
+                s = self._solver(self.timeout_ms * 3)
                 s.set(random_seed=7)
                 s.add(*self.background)
                 s.add(*st.pc)
